@@ -108,7 +108,11 @@ type Result struct {
 
 // NewResult returns an empty result that assumes exhaustiveness until capped.
 func NewResult() *Result {
-	return &Result{Exhaustive: true, Outcomes: map[string]int64{}, Extra: map[string]interface{}{}, MaxViolations: 5}
+	r := &Result{Exhaustive: true, Outcomes: map[string]int64{}, Extra: map[string]interface{}{}, MaxViolations: 5}
+	if os.Getenv("VERIF_STOP_FIRST") != "" {
+		r.MaxViolations = 1
+	}
+	return r
 }
 
 // Outcome counts one observed outcome class.
